@@ -76,34 +76,7 @@ func main() {
 		os.Exit(cmdBaseline(pos...))
 	case "params":
 		p := mustLoad()
-		params := map[string][]string{}
-		for name := range p.specs.Funcs {
-			if fn, ok := p.fns[name]; ok {
-				var ns []string
-				for _, prm := range fn.Params {
-					ns = append(ns, prm.Name())
-				}
-				params[name] = ns
-				if len(fn.FreeVars) > 0 {
-					var fs []string
-					for _, fv := range fn.FreeVars {
-						fs = append(fs, fv.Name())
-					}
-					params[name+"#free"] = fs
-				}
-			}
-		}
-		// every named function of the repository at acceptance time: a function that is not in this
-		// list is new code (e.g. an extracted helper)
-		var all []string
-		for name, fn := range p.fns {
-			if fn.Parent() == nil && fn.Synthetic == "" {
-				all = append(all, name)
-			}
-		}
-		sort.Strings(all)
-		params["#all"] = all
-		os.Exit(writeJSON(filepath.Join(verifDir, "baseline_params.json"), params))
+		os.Exit(writeJSON(filepath.Join(verifDir, "baseline_params.json"), baselineParamsNow(p)))
 	case "list":
 		os.Exit(cmdList())
 	case "audit":
@@ -248,17 +221,7 @@ func cmdBaseline(only ...string) int {
 	}
 	// parameter names at baseline time: contracts name parameters; if a parameter is renamed
 	// later the old name is kept as an alias (a harmless edit must not raise an alarm)
-	params := map[string][]string{}
-	for name := range p.specs.Funcs {
-		if fn, ok := p.fns[name]; ok {
-			var ns []string
-			for _, prm := range fn.Params {
-				ns = append(ns, prm.Name())
-			}
-			params[name] = ns
-		}
-	}
-	writeJSON(filepath.Join(verifDir, "baseline_params.json"), params)
+	writeJSON(filepath.Join(verifDir, "baseline_params.json"), baselineParamsNow(p))
 	return writeJSON(filepath.Join(verifDir, "baseline_obligations.json"), bl)
 }
 
@@ -298,4 +261,38 @@ func allProps(p *Prog) []string {
 	}
 	sort.Strings(out)
 	return out
+}
+
+// baselineParamsNow: what is recorded about names at acceptance time - parameter names of every
+// contracted function, captured-variable names of contracted closures ("<fn>#free") and the list of
+// all named functions ("#all", so that new code can be told from old).
+func baselineParamsNow(p *Prog) map[string][]string {
+		params := map[string][]string{}
+		for name := range p.specs.Funcs {
+			if fn, ok := p.fns[name]; ok {
+				var ns []string
+				for _, prm := range fn.Params {
+					ns = append(ns, prm.Name())
+				}
+				params[name] = ns
+				if len(fn.FreeVars) > 0 {
+					var fs []string
+					for _, fv := range fn.FreeVars {
+						fs = append(fs, fv.Name())
+					}
+					params[name+"#free"] = fs
+				}
+			}
+		}
+		// every named function of the repository at acceptance time: a function that is not in this
+		// list is new code (e.g. an extracted helper)
+		var all []string
+		for name, fn := range p.fns {
+			if fn.Parent() == nil && fn.Synthetic == "" {
+				all = append(all, name)
+			}
+		}
+		sort.Strings(all)
+		params["#all"] = all
+	return params
 }
